@@ -180,6 +180,8 @@ type World struct {
 	ruleRounds uint64
 	// curLag is the node that currently hears nothing under the "rotlag" profile (-1: none)
 	curLag int
+	// Inbox: validated messages not yet handed to the participant (per node index)
+	Inbox map[int][]*staged
 	// rebroadcasting is set while a RequestRebroadcast is being served
 	rebroadcasting bool
 }
@@ -191,6 +193,7 @@ type Stats struct {
 	Sways, SkipsRound, SkipsDecide, Rebroadcasts                                   int
 	LateCommitDecisions                                                            int
 	HijackConverges, HijackCommits, ForgedFloods, SuppVariants, Poisons            int
+	Staged, StagedReceived, StaleEvidence                                          int
 }
 
 type tracer struct{ w *World }
@@ -532,7 +535,50 @@ func (w *World) Drop(k int) {
 	w.tracef("drop %s -> node %d", DescribeMsg(p.Msg), w.At(p.To).ID)
 }
 
-func (w *World) deliver(p *Pending) {
+// Stage validates pool entry k now and parks the validated message in the destination's
+// inbox; ReceiveStaged hands it to the participant later. This is what a production host
+// does (pubsub validator first, then a queue in front of ReceiveMessage), so the progress a
+// message was validated against and the progress it is received in may differ.
+func (w *World) Stage(k int) {
+	p := w.Pool[k]
+	w.Pool = append(w.Pool[:k], w.Pool[k+1:]...)
+	w.deliverOrStage(p, true)
+}
+
+type staged struct {
+	vm      gpbft.ValidatedMessage
+	msg     *gpbft.GMessage
+	fromByz bool
+}
+
+// ReceiveStaged hands the oldest staged message of node i to its participant.
+func (w *World) ReceiveStaged(i int) {
+	q := w.Inbox[i]
+	if len(q) == 0 {
+		return
+	}
+	st := q[0]
+	w.Inbox[i] = q[1:]
+	n := w.Nodes[i]
+	w.Step++
+	w.Stats.StagedReceived++
+	w.tracef("receive staged %s -> node %d (progress %v)", DescribeMsg(st.msg), n.ID, fmtInstant(n.P.Progress().Instant))
+	n.Mon.onDeliver(st.msg, st.fromByz)
+	n.call("message", func() error { return n.P.ReceiveMessage(context.Background(), st.vm) })
+}
+
+// DrainInboxes receives everything staged, oldest first.
+func (w *World) DrainInboxes() {
+	for i := range w.Nodes {
+		for len(w.Inbox[i]) > 0 {
+			w.ReceiveStaged(i)
+		}
+	}
+}
+
+func (w *World) deliver(p *Pending) { w.deliverOrStage(p, false) }
+
+func (w *World) deliverOrStage(p *Pending, stage bool) {
 	if p.To >= len(w.Nodes)+len(w.Personas) {
 		return // addressed to a personality that no longer exists
 	}
@@ -564,6 +610,15 @@ func (w *World) deliver(p *Pending) {
 		w.Stats.ByzAccepted++
 	}
 	w.Stats.Delivered++
+	if stage && !n.Byz {
+		if w.Inbox == nil {
+			w.Inbox = map[int][]*staged{}
+		}
+		w.Inbox[p.To] = append(w.Inbox[p.To], &staged{vm: vm, msg: msg, fromByz: p.FromByz})
+		w.Stats.Staged++
+		w.tracef("validate+stage %s -> node %d (progress %v)", DescribeMsg(p.Msg), n.ID, fmtInstant(n.P.Progress().Instant))
+		return
+	}
 	w.tracef("deliver %s -> node %d (progress %v)", DescribeMsg(p.Msg), n.ID, fmtInstant(n.P.Progress().Instant))
 	if n.Byz {
 		_ = n.P.ReceiveMessage(context.Background(), vm)
